@@ -22,6 +22,7 @@ import ast
 import os
 from typing import Dict, List, Optional
 
+from asl.absint import UNKNOWN
 from asl.cfg import cfg_of
 from asl.flow import reachable
 from asl.loader import AnalysisError, Package, norm, own_nodes
@@ -71,18 +72,45 @@ def _parents(root) -> Dict[int, ast.AST]:
     return out
 
 
-def _classify_use(name: ast.AST, parents) -> str:
+def _attr_names(ctx_or_none, meth, expr: ast.AST, parents) -> Optional[set]:
+    """The attribute names a ``getattr``/``hasattr``/``setattr`` name argument can take: a
+    string constant, or the variable of a ``for`` loop over a constant tuple of strings
+    (literal or module-level)."""
+    if isinstance(expr, ast.Constant) and isinstance(expr.value, str):
+        return {expr.value}
+    if isinstance(expr, ast.Name):
+        for loop in ast.walk(meth.node):
+            if isinstance(loop, ast.For) and isinstance(loop.target, ast.Name) and loop.target.id == expr.id:
+                it = loop.iter
+                if isinstance(it, ast.Name):
+                    sym = meth.module.symbols.get(it.id)
+                    it = sym[1] if sym is not None and sym[0] == "assign" else it
+                try:
+                    vals = ast.literal_eval(it)
+                except Exception:  # noqa: BLE001
+                    return None
+                if isinstance(vals, (tuple, list, set, frozenset)) and all(isinstance(v, str) for v in vals):
+                    return set(vals)
+    return None
+
+
+def _classify_use(name: ast.AST, parents, meth=None) -> str:
     """How is this load of the underlying iterator used?"""
     p = parents.get(id(name))
-    if isinstance(p, ast.Assign) and p.value is name:
-        tgt = p.targets[0]
-        if isinstance(tgt, ast.Attribute) and tgt.attr == "__wrapped__":
+    if isinstance(p, (ast.Assign, ast.AnnAssign)) and p.value is name:
+        tgts = p.targets if isinstance(p, ast.Assign) else [p.target]
+        if all(isinstance(t, ast.Attribute) and t.attr == "__wrapped__" for t in tgts):
             return "keep"
-        return f"stored in {norm(tgt)}"
+        return f"stored in {norm(tgts[0])}"
     if isinstance(p, ast.comprehension) and p.iter is name:
         return "iterate"
-    if isinstance(p, ast.Call) and norm(p.func) == "hasattr" and p.args and p.args[0] is name:
-        return "probe"
+    if isinstance(p, ast.Call) and norm(p.func) in ("hasattr", "getattr") and p.args and p.args[0] is name and len(p.args) >= 2:
+        if norm(p.func) == "hasattr" and isinstance(p.args[1], ast.Constant):
+            return "probe"
+        names = _attr_names(None, meth, p.args[1], parents) if meth is not None else None
+        if names is not None and names <= FORWARDED:
+            return "probe" if norm(p.func) == "hasattr" else "forward"
+        return f"passed to {norm(p.func)}() with attribute name(s) {sorted(names) if names is not None else 'unknown'}"
     if isinstance(p, ast.Attribute) and p.value is name:
         if p.attr in FORWARDED:
             return "forward"
@@ -119,7 +147,7 @@ def r07_1(ctx, pkg: Package, report: bool, fail_rule: str = "R07.1") -> int:
                 if not underlying:
                     continue
                 uses += 1
-                how = _classify_use(n, parents)
+                how = _classify_use(n, parents, meth)
                 ok = how in ("keep", "iterate", "probe", "forward", "repr")
                 if report:
                     ctx.check(ok, fail_rule, meth, parents.get(id(n)) or n,
@@ -131,75 +159,220 @@ def r07_1(ctx, pkg: Package, report: bool, fail_rule: str = "R07.1") -> int:
     return uses
 
 
-def r07_2(ctx) -> None:
+# --------------------------------------------------------------------------- object model
+class _BorrowOps:
+    """Abstract objects: ITER (the underlying iterator), SELF (the handle, fields in
+    env['@f:<name>']), ('gen', ITER) — a generator expression that only iterates ITER and
+    passes its items on —, ('meth', obj, name) and ('call', callee)."""
+
+    def __init__(self, has: bool):
+        self.has = has  # does the underlying iterator have asend/athrow?
+
+    def attr(self, value, name, node, env):
+        if value == "SELF":
+            return env.get("@f:" + name, ("unset", name))
+        if value == "ITER" or (isinstance(value, tuple) and value[:1] in (("gen",), ("gen?",))):
+            return ("meth", value, name)
+        return UNKNOWN
+
+    def call(self, func, args, kwargs, node, env):
+        if func == "getattr" and len(args) >= 2 and isinstance(args[1], str):
+            return self.attr(args[0], args[1], node, env)
+        if func == "hasattr" and len(args) == 2 and isinstance(args[1], str):
+            if args[0] == "ITER":
+                return self.has
+            if args[0] == "SELF":
+                return ("@f:" + args[1]) in env
+            return UNKNOWN
+        if func == "cast" and len(args) == 2:
+            return args[1]
+        if isinstance(node.func, ast.Attribute):
+            from asl.absint import AbsEval
+            callee = AbsEval(self).eval(node.func, env)
+            if isinstance(callee, tuple) and callee[:1] == ("meth",):
+                return ("call", callee)
+        return UNKNOWN
+
+    def other(self, e, env, ev):
+        if isinstance(e, ast.GeneratorExp):
+            g = e.generators[0]
+            src = ev.eval(g.iter, env)
+            plain = len(e.generators) == 1 and g.is_async and not g.ifs and isinstance(e.elt, ast.Name) \
+                and isinstance(g.target, ast.Name) and e.elt.id == g.target.id
+            if src is UNKNOWN:
+                return UNKNOWN
+            return ("gen", src) if plain else ("gen?", src)
+        return UNKNOWN
+
+    def store(self, target, value, env, ev):
+        if isinstance(target, ast.Attribute) and ev.eval(target.value, env) == "SELF":
+            env["@f:" + target.attr] = value
+
+    def iter(self, node, env):
+        return None
+
+    def next(self, node, env):
+        from asl.absint import AbsEval, STOP
+        seq = AbsEval(self).eval(node.info.get("iter"), env)
+        if not isinstance(seq, tuple) or not all(isinstance(x, str) for x in seq):
+            return UNKNOWN
+        pos = dict(env.get("@pos", {}))
+        i = pos.get(node.id, 0)
+        if i >= len(seq):
+            pos[node.id] = 0
+            env["@pos"] = pos
+            return STOP
+        pos[node.id] = i + 1
+        env["@pos"] = pos
+        return seq[i]
+
+    def visit(self, node, env, ev):
+        if node.kind == "call" and norm(node.ast.func) == "setattr" and len(node.ast.args) == 3:
+            obj, name, val = (ev.eval(a, env) for a in node.ast.args)
+            if obj == "SELF" and isinstance(name, str):
+                env["@f:" + name] = val
+            else:
+                env["@bad"] = env.get("@bad", ()) + (f"setattr({norm(node.ast.args[0])}, {norm(node.ast.args[1])}, ..)",)
+        if node.kind == "await":
+            env["@awaits"] = env.get("@awaits", ()) + (ev.eval(node.info.get("value"), env),)
+
+
+def _module_constants(module) -> dict:
+    out = {}
+    for name, sym in module.symbols.items():
+        if sym[0] == "assign":
+            try:
+                v = ast.literal_eval(sym[1])
+            except Exception:  # noqa: BLE001
+                continue
+            if isinstance(v, (tuple, str)):
+                out[name] = v
+    return out
+
+
+def _fields(env) -> dict:
+    return {k[3:]: v for k, v in env.items() if k.startswith("@f:")}
+
+
+def _mentions_iter(v) -> bool:
+    if v == "ITER":
+        return True
+    if isinstance(v, tuple):
+        if v[:1] in (("gen",), ("gen?",)):
+            return False  # the generator only iterates it (checked separately)
+        return any(_mentions_iter(x) for x in v)
+    return False
+
+
+def close_helper(ctx):
+    """The coroutine that ``_BorrowedAsyncIterator.aclose()`` runs (aclose itself if it is one)."""
+    info = ctx.pkg.cls(BORROW_CLASSES[0])
+    acl = info.methods.get("aclose")
+    if acl is None:
+        raise AnalysisError("_BorrowedAsyncIterator.aclose missing (anchor moved)")
+    if acl.kind == "coroutine":
+        return acl
+    for r in own_nodes(acl.node):
+        if isinstance(r, ast.Return) and isinstance(r.value, ast.Call) and isinstance(r.value.func, ast.Attribute) \
+                and norm(r.value.func.value) == "self" and r.value.func.attr in info.methods \
+                and info.methods[r.value.func.attr].kind == "coroutine":
+            return info.methods[r.value.func.attr]
+    return None
+
+
+def _init_outcomes(ctx, has: bool):
+    from asl.absint import Machine
+    from .common import make_resolver
     info = ctx.pkg.cls(BORROW_CLASSES[0])
     init = info.methods["__init__"]
-    pname = init.param_names()[1]
-    gen_fields = set()
-    for s in own_nodes(init.node):
-        if isinstance(s, (ast.Assign, ast.AnnAssign)):
-            tgt = s.targets[0] if isinstance(s, ast.Assign) else s.target
-            val = s.value
-            if isinstance(tgt, ast.Attribute) and isinstance(val, ast.GeneratorExp):
-                ok = len(val.generators) == 1 and val.generators[0].is_async and isinstance(val.generators[0].iter, ast.Name) \
-                    and val.generators[0].iter.id == pname and isinstance(val.elt, ast.Name) and not val.generators[0].ifs
-                ctx.check(ok, "R07.2", init, s, "the intermediate generator only iterates the underlying iterator "
-                          "and passes its items through unchanged")
-                gen_fields.add(tgt.attr)
-    ctx.check(bool(gen_fields), "R07.2", init, "__init__", "an intermediate generator is created per borrowed handle")
-    for meth in info.methods.values():
-        for s in own_nodes(meth.node):
-            if not isinstance(s, ast.Assign):
-                continue
-            for tgt in s.targets:
-                if not (isinstance(tgt, ast.Attribute) and isinstance(tgt.value, ast.Name) and tgt.value.id == "self"):
+    me, pname = init.param_names()[0], init.param_names()[1]
+    ops = _BorrowOps(has)
+    env = dict(_module_constants(init.module))
+    env.update({me: "SELF", pname: "ITER"})
+    return init, Machine(cfg_of(init), ops, resolver=make_resolver(ctx, init, ops)).run(env)
+
+
+def r07_2(ctx) -> None:
+    info = ctx.pkg.cls(BORROW_CLASSES[0])
+    gen = ("gen", "ITER")
+    for has in (True, False):
+        init, outs = _init_outcomes(ctx, has)
+        ctx.count("borrow_init_cells")
+        cell = f"underlying iterator {'with' if has else 'without'} asend/athrow"
+        ctx.check(bool(outs) and all(oc.terminal.kind == "exit" for oc in outs), "R07.2", init, "__init__",
+                  f"[{cell}] the handle's construction was evaluated")
+        for oc in outs:
+            fields = _fields(oc.env)
+            gens = [f for f, v in fields.items() if isinstance(v, tuple) and v[:1] in (("gen",), ("gen?",))]
+            ctx.check(any(fields[f] == gen for f in gens) and all(fields[f] == gen for f in gens), "R07.2", init, "__init__",
+                      f"[{cell}] an intermediate generator is created per handle; it only iterates the underlying iterator "
+                      "and passes its items through unchanged", witness=str({f: fields[f] for f in gens}))
+            ctx.check(fields.get("__anext__") == ("meth", gen, "__anext__"), "R07.2", init, "__anext__",
+                      f"[{cell}] __anext__ is the intermediate generator's, so closing it really stops the handle from "
+                      "advancing the underlying iterator", witness=str(fields.get("__anext__")))
+            for f, v in sorted(fields.items()):
+                if f == "__wrapped__":
+                    ctx.check(v == "ITER", "R07.2", init, f, f"[{cell}] __wrapped__ keeps the underlying iterator")
                     continue
-                val = s.value
-                if isinstance(val, ast.Attribute) and isinstance(val.value, ast.Name) and val.value.id == pname \
-                        and meth is init:
-                    ctx.check(tgt.attr in FORWARDED and val.attr == tgt.attr, "R07.2", meth, s,
-                              f"`{tgt.attr}` forwards the underlying iterator's `{val.attr}` (allowed: asend, athrow)")
-                if tgt.attr == "__anext__":
-                    ok = isinstance(val, ast.Attribute) and val.attr == "__anext__" and \
-                        norm(val.value) in {f"self.{g}" for g in gen_fields}
-                    ctx.check(ok, "R07.2", meth, s, "__anext__ is the intermediate generator's, so closing it really "
-                              "stops the handle from advancing the underlying iterator")
+                if not _mentions_iter(v):
+                    continue
+                ok = f in FORWARDED and v == ("meth", "ITER", f)
+                ctx.check(ok, "R07.2", init, f,
+                          f"[{cell}] `{f}` forwards the underlying iterator's `{f}` (allowed: asend, athrow)" if ok else
+                          f"[{cell}] attribute `{f}` of the handle exposes {v}: only asend/athrow may be forwarded",
+                          witness=str(v))
+            ctx.check(not oc.env.get("@bad"), "R07.2", init, "__init__", f"[{cell}] attributes are only set on the handle itself",
+                      witness=str(oc.env.get("@bad")))
     slots = info.slots or []
     ctx.check("aclose" not in slots and "__aiter__" not in slots, "R07.2", BORROW_CLASSES[0], "__slots__",
               "aclose and __aiter__ are class-level methods and cannot be rebound per instance to the underlying ones")
 
 
 def r07_3(ctx) -> None:
+    from asl.absint import Machine
+    from .common import make_resolver
     info = ctx.pkg.cls(BORROW_CLASSES[0])
     aiter = info.methods.get("__aiter__")
     rets = [n for n in own_nodes(aiter.node) if isinstance(n, ast.Return)] if aiter else []
     ctx.check(aiter is not None and bool(rets) and all(norm(r.value) == "self" for r in rets), "R07.3",
               aiter or BORROW_CLASSES[0], "__aiter__",
               "__aiter__ returns the borrowed handle itself (closing iter(borrowed) cannot reach the source)")
-    acl = info.methods.get("aclose")
-    helper = info.methods.get("_aclose_wrapper")
-    if acl is None or helper is None:
-        raise AnalysisError("_BorrowedAsyncIterator.aclose/_aclose_wrapper missing (anchor moved)")
-    rets = [n for n in own_nodes(acl.node) if isinstance(n, ast.Return)]
-    ctx.check(bool(rets) and all(norm(r.value) == "self._aclose_wrapper()" for r in rets) or acl.kind == "coroutine",
-              "R07.3", acl, "aclose", "aclose delegates to the wrapper-closing helper")
-    cfg = cfg_of(helper)
-    awaits = [n for n in cfg.nodes if n.kind == "await" and not n.tag]
-    ok = len(awaits) == 1 and all(any(a[0] == "libcoro" and a[1].endswith(".aclose") for a in
-                                      ctx.vals.expr(helper, n.info.get("value"), n)) for n in awaits)
-    ctx.check(ok, "R07.3", helper, awaits[0] if awaits else "_aclose_wrapper",
-              "closing awaits exactly the intermediate generator's aclose()",
-              witness=str([sorted(ctx.vals.expr(helper, n.info.get('value'), n)) for n in awaits]))
-    rebinds = {}
-    for s in own_nodes(helper.node):
-        if isinstance(s, ast.Assign):
-            for t in s.targets:
-                if isinstance(t, ast.Attribute) and isinstance(t.value, ast.Name) and t.value.id == "self":
-                    rebinds[t.attr] = s.value
-    for name in FORWARDED:
-        v = rebinds.get(name)
-        ok = isinstance(v, ast.Attribute) and v.attr == name and not norm(v.value).endswith("__wrapped__")
-        ctx.check(ok, "R07.3", helper, name, f"after closing, `{name}` no longer reaches the underlying iterator directly")
+    helper = close_helper(ctx)
+    gen = ("gen", "ITER")
+    if helper is None:
+        ctx.fail("R07.3", info.methods["aclose"], "aclose", "aclose() does not run a coroutine of the handle that closes the "
+                 "intermediate generator and then redirects asend/athrow: after closing, the forwarded methods still "
+                 "reach the underlying iterator")
+        return
+    for has in (True, False):
+        init, outs = _init_outcomes(ctx, has)
+        for oc in outs:
+            if oc.terminal.kind != "exit":
+                continue
+            ops = _BorrowOps(has)
+            env = dict(_module_constants(helper.module))
+            env.update({k: v for k, v in oc.env.items() if k.startswith("@f:")})
+            env[helper.param_names()[0]] = "SELF"
+            for oc2 in Machine(cfg_of(helper), ops, resolver=make_resolver(ctx, helper, ops)).run(env):
+                ctx.count("borrow_close_cells")
+                cell = f"underlying iterator {'with' if has else 'without'} asend/athrow"
+                awaits = oc2.env.get("@awaits", ())
+                ctx.check(oc2.terminal.kind == "exit" and awaits == (("call", ("meth", gen, "aclose")),), "R07.3", helper,
+                          helper.node.name, f"[{cell}] closing awaits exactly the intermediate generator's aclose()",
+                          witness=str(awaits))
+                fields = _fields(oc2.env)
+                for name in sorted(FORWARDED):
+                    v = fields.get(name)
+                    if v is None:
+                        continue
+                    ok = v == ("meth", gen, name)
+                    ctx.check(ok, "R07.3", helper, name,
+                              f"[{cell}] after closing, `{name}` no longer reaches the underlying iterator directly",
+                              witness=str(v))
+                leaks = [f for f, v in fields.items() if f != "__wrapped__" and _mentions_iter(v)]
+                ctx.check(not leaks, "R07.3", helper, helper.node.name,
+                          f"[{cell}] after closing no attribute but __wrapped__ refers to the underlying iterator",
+                          witness=str(leaks))
 
 
 def r07_4(ctx) -> None:
